@@ -18,7 +18,10 @@ CHECKS = {
                 "default, a bucket name that already exists in the default storage): Refines (every bucket of its owner "
                 "shows what the reference shows, so a cross-storage copy equals a same-storage copy), OnlyOwnerTouched and "
                 "ListBucketsUnion (duplicate-free union). TLC then generates configurations + API programs weighted to "
-                "copies and multipart copies in all source/destination combinations; the harness runs them through the real "
+                "copies and multipart copies in all source/destination combinations (half of them with copy-source conditions), plus "
+                "one cover walk through every {CopyObject, UploadPartCopy} x {cross, same storage} x copy-source condition "
+                "combination (if-match / if-none-match / if-(un)modified-since absent, passing, failing; the model has the "
+                "storage's own S3 precedence rule for both paths); the harness runs them through the real "
                 "middleware over three real MetadataPartStorage backings wrapped in recording decorators; TLC validates every "
                 "call against the model of the middleware and checks, per call, which backings were called, that every "
                 "backing (read directly) shows for owned buckets what the middleware shows and for foreign buckets what it "
@@ -46,6 +49,19 @@ def gen(ctx, n, depth, seed, cfgnames):
         raise vlib.Infra("program generation produced %d of %d programs (%s)\n%s" % (len(progs), n, r.outcome, r.output[-2000:]))
     ctx.transitions += r.generated
     return progs[:n]
+
+
+def sc_cover_program(ctx):
+    """The copy-source condition cover (ConditionalGen!SCCoverProgram): one walk through every situation
+    {CopyObject, UploadPartCopy} x {cross-storage, same-storage} x condition combination, printed by TLC."""
+    r = ctx.tlc("ConditionalGen", "Conditional.Cover.cfg", workers=1, simulate="num=1", depth=1, seed=1, timeout=300,
+                count_mc=False, subst={"CfgNames": '{"split"}'})
+    ps = [p for p in r.printed if isinstance(p, dict) and "cover" in p]
+    if not ps:
+        raise vlib.Infra("copy-source condition cover was not produced (%s)\n%s" % (r.outcome, r.output[-1500:]))
+    cfg = {"name": "split", "route": {"b1": "S1", "b2": "S2"}, "def": "S0", "pre": []}
+    ctx.log("copy-source condition cover: %d combinations, %d calls" % (ps[0]["combos"], len(ps[0]["cover"])))
+    return {"config": cfg, "calls": ps[0]["cover"], "combos": ps[0]["combos"]}
 
 
 def _corrupt_touched(prog):
@@ -93,6 +109,8 @@ def run(ctx):
     cfgnames = ["split", "same", "unmapped", "stale"]
     drv = ctx.gobuild("conditional")
     progs = gen(ctx, nprog, depth, ctx.seed * 1000 + 24, cfgnames)
+    cover = sc_cover_program(ctx)
+    progs.append(cover)      # always executed, under a configuration that routes the two buckets to different storages
     pf = ctx.path("programs.ndjson")
     vlib.write_ndjson(pf, [{"id": i + 1, "config": p["config"], "calls": p["calls"]} for i, p in enumerate(progs)])
     tf = ctx.path("trace.ndjson")
@@ -124,6 +142,24 @@ def run(ctx):
                 cross[op] += 1
                 if ln["res"]["err"] == "":
                     cross_ok[op] += 1
+    # the cover must really have exercised every (operation, cross/same, combination), with both outcomes
+    scs = {}
+    cfg = None
+    for ln in lines:
+        op = ln["call"]["op"]
+        if op == "Config":
+            cfg = ln["config"]
+        elif op in ("CopyObject", "UploadPartCopy") and "sc" in ln["call"] and cfg:
+            own = lambda b: cfg["route"].get(b) or cfg["def"]
+            key = (op, own(ln["call"]["sb"]) != own(ln["call"]["b"]), json.dumps(ln["call"]["sc"], sort_keys=True))
+            scs.setdefault(key, set()).add(ln["res"]["err"])
+    need = 4 * cover["combos"]
+    refused = sum(1 for v in scs.values() if "PreconditionFailed" in v)
+    done = sum(1 for v in scs.values() if "" in v)
+    ctx.extra["copy_source_conditions"] = {"situations_executed": len(scs), "cover_situations": need,
+                                           "refused": refused, "performed": done}
+    if len(scs) < need or refused == 0 or done == 0:
+        raise vlib.Infra("copy-source condition situations not exercised: %d of %d (refused %d, performed %d)" % (len(scs), need, refused, done))
     ctx.extra["distinct_nontrivial"] = ctx.traces
     ctx.extra["calls_by_op"] = opcount
     ctx.extra["programs_by_configuration"] = byconf
